@@ -1047,6 +1047,10 @@ class Interp:
             return ok(UNIT)
         b = self.prog.resolve(key, raw)
         if b is not None:
+            if key[0] == 'trait' and key[1].startswith('&'):
+                # impl of the trait for &T forwards to T's impl: strip one reference level per '&'
+                for _ in range(len(key[1]) - len(key[1].lstrip('&'))):
+                    args = [a.cell.v if isinstance(a, Ref) and isinstance(a.cell.v, Ref) else a for a in args]
             return self.run(b, args)
         f = MODELS.get(sk)
         if f is not None:
